@@ -116,11 +116,17 @@ func init() {
 		return nil
 	})
 	reg("verifGuardedBy", func(m *Machine, fn *ssa.Function, a []Value) Value {
-		// accepts a pointer to a lock, or a struct (value or pointer) whose lock fields are the guards;
-		// a lock held BY VALUE inside a struct value has no stable identity and registers nothing
+		// accepts a pointer to a lock, or a struct (value or pointer) whose lock fields — directly, in
+		// nested structs, behind pointers or in slice elements — are the guards; a lock held BY VALUE
+		// inside a struct value that is itself not addressable has no stable identity and registers
+		// nothing
 		iv := a[0].(Iface)
-		var scan func(v Value, t types.Type, at *Ptr)
-		scan = func(v Value, t types.Type, at *Ptr) {
+		seen := map[*Object]bool{}
+		var scan func(v Value, t types.Type, at *Ptr, depth int)
+		scan = func(v Value, t types.Type, at *Ptr, depth int) {
+			if depth > 6 {
+				return
+			}
 			switch x := v.(type) {
 			case Ptr:
 				if x.Obj == nil {
@@ -134,8 +140,9 @@ func init() {
 					m.Mon.guards[ptrKey(x)] = true
 					return
 				}
-				if _, isStruct := pt.Elem().Underlying().(*types.Struct); isStruct {
-					scan(*m.cell(x), pt.Elem(), &x)
+				if _, isStruct := pt.Elem().Underlying().(*types.Struct); isStruct && !seen[x.Obj] {
+					seen[x.Obj] = true
+					scan(*m.cell(x), pt.Elem(), &x, depth+1)
 				}
 			case *StructV:
 				st, ok := t.Underlying().(*types.Struct)
@@ -144,18 +151,45 @@ func init() {
 				}
 				for i, f := range x.F {
 					ft := st.Field(i).Type()
-					if isSyncLockType(ft) && at != nil {
-						m.Mon.guards[ptrKey(sub(*at, i))] = true
-					} else if _, isPtr := ft.Underlying().(*types.Pointer); isPtr {
-						if fp, ok := f.(Ptr); ok && fp.Obj != nil && isSyncLockType(ft.Underlying().(*types.Pointer).Elem()) {
-							m.Mon.guards[ptrKey(fp)] = true
+					switch {
+					case isSyncLockType(ft):
+						if at != nil {
+							m.Mon.guards[ptrKey(sub(*at, i))] = true
 						}
+					default:
+						var fat *Ptr
+						if at != nil {
+							p := sub(*at, i)
+							fat = &p
+						}
+						scan(f, ft, fat, depth+1)
 					}
+				}
+			case Slice:
+				st, ok := t.Underlying().(*types.Slice)
+				if !ok || x.Base.Obj == nil {
+					return
+				}
+				if _, isStruct := st.Elem().Underlying().(*types.Struct); !isStruct {
+					if _, isPtr := st.Elem().Underlying().(*types.Pointer); !isPtr {
+						return
+					}
+				}
+				arr, ok := (*m.cell(x.Base)).(*ArrayV)
+				if !ok {
+					return
+				}
+				for i := 0; i < x.Len && x.Off+i < len(arr.E); i++ {
+					ep := sub(x.Base, x.Off+i)
+					scan(arr.E[x.Off+i], st.Elem(), &ep, depth+1)
 				}
 			}
 		}
-		scan(iv.V, iv.T, nil)
+		scan(iv.V, iv.T, nil, 0)
 		return nil
+	})
+	reg("verifGuards", func(m *Machine, fn *ssa.Function, a []Value) Value {
+		return m.S.Const(64, uint64(len(m.Mon.guards)))
 	})
 	reg("verifSharedReach", func(m *Machine, fn *ssa.Function, a []Value) Value {
 		m.MarkShared(a[0].(Iface).V)
